@@ -223,16 +223,69 @@ def r37(ctx: Ctx) -> RuleReport:
         and rets[0].value.func.attr == 'join' and try_fold(rets[0].value.func.value) == (True, '\n\n')
     rep.add('penman.codec:_dumps: graphs are separated by exactly one empty line', d.loc(), 'ok' if good else 'undecided')
     ds = ctx.repo.func('penman.codec', '_dump_stream')
-    prints = [c for c, ts in ctx.cg.calls_in(ds) if any(t.kind == 'ext' and t.name == 'builtins.print' for t in ts)]
+    fhp = ds.positional[0]
     loop = next((n for n in walk_local(ds.node) if isinstance(n, ast.For)), None)
-    in_loop = [c for c in prints if loop is not None and any(x is c for x in ast.walk(loop))]
-    good = len(prints) == 3 and len(in_loop) == 2 and [bool(c.args) for c in sorted(in_loop, key=lambda c: c.lineno)] == [False, True]
-    rep.add('penman.codec:_dump_stream: first graph, then (empty line, graph) for each further one', ds.loc(), 'ok' if good else 'undecided',
-            f'{len(prints)} prints, {len(in_loop)} in the loop')
-    for c in prints:
-        f = next((k.value for k in c.keywords if k.arg == 'file'), None)
-        rep.add(f'penman.codec:_dump_stream: {norm(c)} writes to the stream argument', ds.loc(c),
-                'ok' if f is not None and norm(f) == ds.positional[0] else 'undecided')
+
+    def pieces_of(e: ast.AST):
+        if isinstance(e, ast.BinOp) and isinstance(e.op, ast.Add):
+            return pieces_of(e.left) + pieces_of(e.right)
+        if isinstance(e, ast.JoinedStr):
+            out = []
+            for v in e.values:
+                out += [v.value] if isinstance(v, ast.Constant) else ['S' if True else None]
+            return out
+        if isinstance(e, ast.Constant) and isinstance(e.value, str):
+            return [e.value]
+        return ['S']            # a graph's text (next(ss) / the loop variable)
+
+    def emitted(stmts):
+        """text pieces written to the stream by a straight-line statement list; None if a write goes elsewhere / has extra keywords"""
+        out = []
+        for st in stmts:
+            for c in [x for x in ast.walk(st) if isinstance(x, ast.Call)]:
+                if isinstance(c.func, ast.Name) and c.func.id == 'print':
+                    f = next((k.value for k in c.keywords if k.arg == 'file'), None)
+                    if f is None or norm(f) != fhp or any(k.arg in ('end', 'sep') for k in c.keywords) or len(c.args) > 1:
+                        return None
+                    out += (pieces_of(c.args[0]) if c.args else []) + ['\n']
+                elif isinstance(c.func, ast.Attribute) and c.func.attr == 'write' and norm(c.func.value) == fhp and len(c.args) == 1:
+                    out += pieces_of(c.args[0])
+        # merge adjacent literals
+        merged = []
+        for x in out:
+            if merged and x != 'S' and merged[-1] != 'S':
+                merged[-1] += x
+            else:
+                merged.append(x)
+        return merged
+    key = 'penman.codec:_dump_stream: first graph, then (empty line, graph) for each further one'
+    if loop is None:
+        rep.undecided(key, ds.loc(), 'no loop over the remaining graphs')
+    else:
+        pre = [st for st in ds.node.body if st is not loop and st.lineno < loop.lineno]
+        head, body = emitted(pre), emitted(loop.body)
+        if head is None or body is None:
+            rep.undecided(key, ds.loc(), 'a write does not go to the stream argument with default separators')
+        elif head == ['S', '\n'] and body == ['\n', 'S', '\n']:
+            rep.ok(key, ds.loc(), f'{head} then {body} per further graph')
+        elif head.count('S') == 1 and body.count('S') == 1:
+            rep.violation(key, ds.loc(loop), f'the stream receives {head} for the first graph and {body} for each further one; dumps() joins the same '
+                          f'texts with exactly one empty line and dump() adds a final newline, i.e. ["S", "\\n"] then ["\\n", "S", "\\n"]')
+        else:
+            rep.undecided(key, ds.loc(), f'{head} / {body}')
+    # an empty sequence of graphs writes nothing (and does not raise)
+    for n in walk_local(ds.node):
+        if isinstance(n, ast.Call) and isinstance(n.func, ast.Name) and n.func.id == 'next' and len(n.args) == 1 and not n.keywords:
+            guarded = False
+            pmap = ctx.repo.parent_map(ds.node)
+            x = n
+            while id(x) in pmap:
+                x = pmap[id(x)]
+                if isinstance(x, ast.Try) and any(h.type is None or 'StopIteration' in norm(h.type) or norm(h.type) in ('Exception', 'BaseException')
+                                                  for h in x.handlers) and any(n is y for b in x.body for y in ast.walk(b)):
+                    guarded = True
+            rep.add('penman.codec:_dump_stream: dumping no graphs at all writes nothing', ds.loc(n), 'ok' if guarded else 'violation',
+                    '' if guarded else f'`{norm(n)}` has no default and no StopIteration handler: dump([]) raises StopIteration where dumps([]) returns ""')
     # dumps and dump encode with the same call
     enc = []
     for q in ('_dumps', '_dump_stream'):
